@@ -1,4 +1,5 @@
 import Driver.Run
 import Driver.Gen
 import Driver.Session
+import Driver.Exec
 import Driver.Main
